@@ -71,7 +71,11 @@ func iwEvalAll(c *WCase) (Outcome, string) {
 					if r0 != 0 {
 						d = d.Clone()
 					}
-					err = d.LogPdf(r, matOf(ad.Float64Type, c.XM))
+					if c.Pdf {
+						err = d.Pdf(r, matOf(ad.Float64Type, c.XM))
+					} else {
+						err = d.LogPdf(r, matOf(ad.Float64Type, c.XM))
+					}
 				} else {
 					d, e := md.NewNormalIWishartDistribution(sc(t, c.Kappa), sc(t, c.Nu), vecOf(t, c.Xi), matOf(t, c.S))
 					if e != nil || d == nil {
@@ -82,7 +86,11 @@ func iwEvalAll(c *WCase) (Outcome, string) {
 					if c.Clone {
 						d = d.Clone()
 					}
-					err = d.LogPdf(r, vecOf(ad.Float64Type, c.XV), matOf(ad.Float64Type, c.XM))
+					if c.Pdf {
+						err = d.Pdf(r, vecOf(ad.Float64Type, c.XV), matOf(ad.Float64Type, c.XM))
+					} else {
+						err = d.LogPdf(r, vecOf(ad.Float64Type, c.XV), matOf(ad.Float64Type, c.XM))
+					}
 				}
 				if err != nil {
 					o = Outcome{"err", 0}
@@ -141,17 +149,21 @@ func iwCaseCoq(c WCase, o Outcome) string {
 	if o.Kind == "err" {
 		obs = "OErrDim"
 	}
+	wrap := ""
+	if c.Pdf {
+		wrap = "pdf_of ("
+	}
 	if c.Kind == "IW" {
-		return fmt.Sprintf("(forall mlgam, %sagrees (iw_eval mlgam %s %s %s %s %s) %s)", hyp,
-			RL(c.Nu), RMat(c.S), RL(c.SDet), RMat(c.XInv), RL(c.XDet), obs)
+		return fmt.Sprintf("(forall mlgam, %sagrees (%siw_eval mlgam %s %s %s %s %s%s) %s)", hyp, wrap,
+			RL(c.Nu), RMat(c.S), RL(c.SDet), RMat(c.XInv), RL(c.XDet), wclose(wrap), obs)
 	}
 	cl := "false"
 	if c.Clone {
 		cl = "true"
 	}
-	return fmt.Sprintf("(forall mlgam, %sagrees (niw_eval mlgam %s %s %s %s %s %s %s %s %s %s %s) %s)", hyp, cl,
+	return fmt.Sprintf("(forall mlgam, %sagrees (%sniw_eval mlgam %s %s %s %s %s %s %s %s %s %s %s%s) %s)", hyp, wrap, cl,
 		RL(c.Kappa), RL(c.Nu), RList(c.Xi), RMat(c.S), RL(c.SDet), RList(c.XV), RMat(c.PInv), RL(c.PDet),
-		RMat(c.XInv), RL(c.XDet), obs)
+		RMat(c.XInv), RL(c.XDet), wclose(wrap), obs)
 }
 
 // textbook log-density with own Gauss-Jordan inverses / determinants and math.Lgamma
@@ -209,6 +221,19 @@ func refIW(c *WCase) (float64, bool) {
 
 func iwCheck(c WCase, report func(Failure), tried *int) {
 	*tried++
+	{ // the Pdf method against the LogPdf method
+		cl, cp := c, c
+		cl.Pdf, cp.Pdf = false, true
+		lo, _ := iwEvalAll(&cl)
+		po, inc := iwEvalAll(&cp)
+		if inc != "" {
+			report(wFailure(cp, "consistency", "Pdf", inc, "identical outcomes"))
+		}
+		if ok, exp := pdfAgrees(lo, po); !ok {
+			report(wFailure(cp, "pdf-exp", "Pdf", fmt.Sprintf("%s %v", po.Kind, po.V), exp))
+		}
+	}
+	c.Pdf = false
 	o, inc := iwEvalAll(&c)
 	if inc != "" {
 		report(wFailure(c, "consistency", "LogPdf", inc, "identical outcomes"))
